@@ -251,6 +251,7 @@ def oracle(c, io):
         if not io['unchanged']: return 'operand changed'
         return None
     r = io['res']
+    atol = 1e-9 * (1.0 + max([abs(x) for x in r['value'] if np.isfinite(x)] + [0.0]))      # a grid point 1 ulp off a steep knot
     if not io['new']: return 'result is not a new spectrum'
     if not io['unchanged'][0]: return 'left operand changed by the operation'
     if not io['unchanged'][1]: return 'right operand changed by the operation'
@@ -283,16 +284,16 @@ def oracle(c, io):
             a = a * kden if not (x < w1[0] - tol or x > w1[-1] + tol) else a
             b = b * kden if not (x < w2[0] - tol or x > w2[-1] + tol) else b
         want = float(NP[c['fn']](a, b))
-        if not close(r['value'][i], want, 1e-9, 1e-12) and not near_edge:
+        if not close(r['value'][i], want, 1e-9, atol) and not near_edge:
             return f"value at {x} nm is {r['value'][i]!r}; {c['fn']}(S1, S2) = {c['fn']}({a!r}, {b!r}) = {want!r}"
     if 'swapped' in io:
         s = io['swapped']
-        if len(s['wave']) != len(r['wave']) or not all_close(s['wave'], r['wave'], 1e-12) or not all_close(s['value'], r['value'], 1e-12, 1e-13):
+        if len(s['wave']) != len(r['wave']) or not all_close(s['wave'], r['wave'], 1e-12) or not all_close(s['value'], r['value'], 1e-9, atol):
             return f"{c['fn']} is not commutative: a∘b = {r['value']}, b∘a = {s['value']}"
     if c['vu'] is None:
         for u, ru in io['units'].items():
             fu = float(MPU[c['u1']] / MPU[u])
             if ru['wu'] != u: return f'result of operands in {u} is in {ru["wu"]}'
-            if len(ru['wave']) != len(r['wave']) or not all_close(ru['wave'], [x * fu for x in r['wave']], 1e-12) or not all_close(ru['value'], r['value'], 1e-9, 1e-12):
+            if len(ru['wave']) != len(r['wave']) or not all_close(ru['wave'], [x * fu for x in r['wave']], 1e-12) or not all_close(ru['value'], r['value'], 1e-9, atol):
                 return f"outcome depends on the unit: operands in {u} give {len(ru['wave'])} samples {ru['value'][:4]}…, in {c['u1']},{c['u2']}: {len(r['wave'])} samples {r['value'][:4]}…"
     return None
